@@ -150,7 +150,8 @@ def run(tier, seed):
     rng = random.Random(seed)
     res = Result()
     nurl = 3 if tier == "quick" else 4
-    urls = ["gemini://h/%d" % i for i in range(nurl)]
+    # some of the targets carry ";" parameters and "?a=1;b=2" queries: a redirect target is the WHOLE meta
+    urls = ["gemini://h/%d" % i if i % 2 == 0 else ("gemini://h/%d;rev=%d" % (i // 2, i) if i % 4 == 1 else "gemini://h/%d?a=1;b=%d" % (i // 2, i)) for i in range(nurl)]
     opts = targets(urls)
     res.rule = ("exhaustive: every redirect graph over %d URLs (each answering one of %d scripted responses) x max_redirects 0..6 x follow on/off, "
                 "plus random graphs over up to 10 URLs; non-trivial = distinct (graph,max) whose walk follows at least one redirect" % (nurl, len(opts)))
